@@ -217,6 +217,19 @@ Theorem c10_quota_model : forall b cap cur, quota_code b cap cur (quota_new b ca
 Proof. exact quota_code_model. Qed.
 Print Assumptions c10_quota_model.
 
+(* quota mode over histories: one plugin instance, any finite sequence of quota rounds,
+   recoverCFSQuotaIfNeed, external rewrites of the file and cpuset rounds, from any starting file
+   contents and status: after EVERY quota round the file holds max(budget*period/1000, beMinQuota)
+   (or the bypass / step value relative to what was in the file just before that round) *)
+Theorem c10_quota_history : forall cap ops st, hist_holds cap (fst st) ops (hist cap st ops).
+Proof. exact hist_holds_model. Qed.
+Print Assumptions c10_quota_history.
+
+Theorem c10_quota_history_decided : forall cap ops prev obs,
+  hist_code cap prev ops obs = 0 <-> hist_holds cap prev ops obs.
+Proof. exact hist_code_spec. Qed.
+Print Assumptions c10_quota_history_decided.
+
 (* ======================================================================== what is extracted *)
 
 (* MAIN THEOREM over exactly the functions Extract.v extracts and bin/check runs: on every
@@ -274,3 +287,10 @@ Example c10_nv_cases :
   /\ wf_case [1; 8000; 6999; 0; 0; 100; 0; 0; 0; 0; 0; 0; 0; 0] = true
   /\ wf_case [4; 20000; 80000; -1] = true.
 Proof. vm_compute. repeat split; reflexivity. Qed.
+
+(* the history of seeded mutant C10-m3: quota round, recovered, same quota round again *)
+Example c10_nv_history :
+  hist 80000 (-1, false) [QAdjust 20000; QRecover; QAdjust 20000; QReset (-1); QAdjust 20000]
+  = [2000000; -1; 2000000; -1; 2000000].
+Proof. vm_compute. reflexivity. Qed.
+
